@@ -182,6 +182,7 @@ def run(ctx):
     ctx.stats["constructed_enum_variants"] = len(shapes.constructed)
     ctx.guarded("R-C20-passthrough", passthrough, ctx, prog)
     ctx.guarded("R-C20-props", publish_props, ctx, prog)
+    ctx.guarded("R-C20-encode-total", forwarded_publish_framing, ctx, prog)
     ctx.guarded("R-C20-alias", alias_stands_for_one_topic, ctx, prog)
     ctx.guarded("R-C20-alias", alias_resolved_on_receipt, ctx, prog)
 
@@ -390,3 +391,13 @@ def alias_resolved_on_receipt(ctx, prog):
         ctx.violation(rule, body.id, "QoS 2 alias resolved at release time",
                       "a QoS 2 PUBLISH is parked (AckLog::pubrec) with its topic alias unresolved; append_to_commitlog resolves it when the PUBREL arrives: if the publisher re-points the alias in between, the message is delivered under the wrong topic "
                       "(and an alias the QoS 2 publish itself establishes does not exist for the publishes that follow it)", site=body.loc(body.blocks[parks[0]]["t"].get("sp")))
+
+
+def forwarded_publish_framing(ctx, prog):
+    """A forward keeps the publisher's packet id and takes the SUBSCRIPTION's QoS: the broker's PUBLISH encoders are
+    fed (qos 0, pkid != 0) values no decoder ever produces. len() and write() must agree on them (shared with R-C04-len-strings)."""
+    from . import c04
+    from .common import Relabel
+    view = Relabel(ctx, "R-C20-encode-total", lambda fn, inst: True)
+    c04.publish_len_pkid(view, "R-C04-len-strings", prog)
+    ctx.floor("R-C20-encode-total", "verdicts about PUBLISH len() vs write() on forwarded values", view.kept, 2)
